@@ -106,6 +106,9 @@ func validateConfig(c *TransportConfig) error {
 	if len(c.TransportMap) == 0 {
 		return errors.New("transport map cannot be empty")
 	}
+	if _, ok := c.TransportMap[c.InitialTransportID]; !ok {
+		return errors.New("initial transport ID must be one of the transports in the transport map")
+	}
 	for _, t := range c.TransportMap {
 		if t.NegotiationParams().TransportGroupID == "" {
 			return errors.New("transport group ID cannot be empty")
